@@ -12,20 +12,23 @@ IMPORTS = "From PV Require Import Lib.Common Model.C12_Var."
 SHARD = 12
 SHARD_TIMEOUT = 600
 LEVEL_TEXT = ("Coq theorems over an exact-rational executable model of the blocked double sum of all variance/covariance classes: "
-              "(1) srange chunking tiles every chromosome for every step >= 1, hence every matrix is independent of `mem`; "
-              "(2) the two-way nself=0 entry equals the variance of 2*sum u_i g_i under the exhaustively enumerated gamete distribution of a "
-              "no-interference meiosis for EVERY number of loci and every gap recombination vector (chromosome boundaries = gaps with p=1/2); "
-              "(3) for every selfing depth k the enumerated two-locus selfing recursion (two independent meioses per generation, derived from the "
-              "enumeration, not assumed) gives the coded D1 = 1-2*rprob_filial(r,k+1), within 2^-(k+1) of the nself=inf formula; "
-              "(4) the coded D1/D2 combination of the three-way, four-way and dihybrid schemes equals the enumerated two-locus covariance for every "
-              "selfing depth; every model entry is the sum over locus pairs of that enumerated covariance; "
-              "(5) symmetry in exchangeable parents, zero for identical parents, taxa equivariance, genic = genetic with linkage ignored, UC definition. "
+              "(1) srange chunking tiles every linkage group for every step >= 1, hence every matrix entry is independent of `mem`; "
+              "(2) every entry of the two-way matrix, and every entry with distinct last two parents of the three-way, four-way and dihybrid matrices, "
+              "equals the covariance of the two doubled-haploid trait values under the exhaustive enumeration of whole MULTI-LOCUS gametes "
+              "(uniform initial strand, independent crossovers per gap, p = 1/2 between linkage groups; k selfing generations = two independent "
+              "meioses of the same individual each) for EVERY number of loci, linkage-group layout, gap vector and selfing depth k; proved via "
+              "(a) the pairwise marginal of the multi-locus selfing process is the two-locus process with r = chain fraction, (b) the two-locus selfing "
+              "recursion derived from the enumeration and solved as the coded rprob_filial / D1 / D2 for all k, within 2^-(k+1) of the nself=inf formula; "
+              "(3) the entries the loops never visit (repeated last parents, dihybrid selfs, genic diagonals) are refuted by computed witnesses; "
+              "(4) symmetry in exchangeable parents and traits, zero for identical parents, taxa equivariance, genic = genetic with linkage ignored, "
+              "UC = mean + i*sqrt(var), Haldane no-interference over R. "
               "The model is tied to the code by evaluating it inside Coq (vm_compute, exact Q, tolerance 2^-30) against the implementation's matrices.")
-LEVEL_NOTE = ("trusted: Coq kernel + vm_compute; the tie to the code is differential on generated inputs; recombination fractions r_ij are either "
-              "computed in the model (positions on the k*ln2/2 grid where Haldane's r is the rational (1-2^-k)/2) or taken from the implementation's "
-              "HaldaneMapFunction.mapfn on |genpos_i-genpos_j| and checked in Coq for no-interference multiplicativity; Haldane multiplicativity itself is "
-              "proved over R; the lift of the two-locus selfing/multi-way result to >2 loci (pairwise marginals of the multi-locus process) is proved only "
-              "for two-way nself=0 and checked by brute-force multi-locus enumeration in Python otherwise; sqrt in UC compared through squares")
+LEVEL_NOTE = ("trusted: Coq kernel + vm_compute; classical-real axioms only in the Haldane lemma; the tie to the code is differential on generated inputs; "
+              "recombination fractions r_ij are either computed in the model (positions on the k*ln2/2 grid where Haldane's r is the rational (1-2^-k)/2, "
+              "proved to be chain fractions) or taken from the implementation's HaldaneMapFunction.mapfn on |genpos_i-genpos_j| and checked in Coq for "
+              "no-interference multiplicativity (2^-30); the enumeration theorems quantify over rational gap probabilities (Haldane values are irrational; "
+              "the identities are polynomial); nself=inf is covered by the limit bound, not by an enumeration; sqrt in UC compared through squares; "
+              "genic covariance classes (abstract in pybrops) and from_pandas/hdf5 round trips are not modelled")
 TECHNIQUE = "Coq proof over an executable exact-rational model + enumeration semantics; in-Coq vm_compute correspondence; Python gamete enumeration as independent predicate"
 RULE = ("case = (scheme two|three|four|di, kind var|cov|genic|uc, entry point from_algmod|from_gmod|factory, phased 0/1 genotypes, chromosome sizes, "
         "positions (ln2/2 grid or dyadic), dyadic marker effects for 1-3 traits, nself in {0,1,2,3,5,inf}, mem in {1,2,3,5,None,...}); one PRNG; "
